@@ -367,13 +367,16 @@ class _GitFile(IO[bytes]):
         """
         if self._closed:
             return
-        self._file.close()
         try:
-            os.remove(self._lockfilename)
-            self._closed = True
-        except FileNotFoundError:
-            # The file may have been removed already, which is ok.
-            self._closed = True
+            self._file.close()
+        finally:
+            # Release the lock even if closing (flushing) the file failed.
+            try:
+                os.remove(self._lockfilename)
+                self._closed = True
+            except FileNotFoundError:
+                # The file may have been removed already, which is ok.
+                self._closed = True
 
     def close(self) -> None:
         """Close this file, saving the lockfile over the original.
